@@ -358,55 +358,7 @@ func crashCmd(out *cq.Out, seed uint64, tier string) {
 		out.Count("crash_points", points)
 		out.Sample(map[string]interface{}{"entries": m, "crash_points": points, "kind": "before/after each store write, then restart + replay from a random earlier entry"})
 	}
-	// ---- a store write that fails (I/O error) on a running node: whether the node dies and recovers or goes on, the
-	// versions acknowledged over its whole life must be dense and the version counter must equal the accepted events
-	{
-		m := 6
-		tag := "failwrite"
-		lg := genLog(cq.NewRng(seed), tag, m)
-		k := 2 + rng.Intn(m-2)
-		dir, _ := os.MkdirTemp(out.Dir, "fw")
-		desc := map[string]interface{}{"seed": seed, "entries": m, "failing_store_write": k, "kind": "store write returns an I/O error"}
-		out.Note(desc)
-		o1, _ := runChild(out, childPlan{Dir: dir, Tag: tag, Entries: m, Seed: seed, From: 0, To: m, FailAt: k}, 0)
-		acks := readAcks(dir + "/acks.jsonl")
-		accepted := uint64(0)
-		dense := true
-		for _, a := range acks {
-			if a.Version != accepted {
-				dense = false
-				out.Violate("C05:version-not-dense:after-failed-store-write", fmt.Sprintf("store write %d failed with an I/O error; afterwards the node acknowledged version %d for its accepted event number %d (a version was skipped or repeated)", k, a.Version, accepted), desc)
-				break
-			}
-			accepted++
-		}
-		if dense {
-			// the node either died at the failed write (then it restarts and replays) or went on: in both cases the
-			// version counter it reports must be the number of events it holds
-			var n *consensus.RaftNode
-			if p, msg := cq.Catch(func() { n = openFSM(dir + "/db") }); p {
-				out.Violate("C07:restart-panic", "restart after a failed store write panicked: "+msg, desc)
-			} else {
-				if v := n.VBalloonVersion(); v != accepted {
-					out.Violate("C05:version-not-dense:after-failed-store-write", fmt.Sprintf("after a failed store write the node holds %d acknowledged events and reports version counter %d", accepted, v), desc)
-				}
-				// replay of the whole log: everything not yet applied is applied once, with the versions of the committed log
-				want := uint64(0)
-				for j := 0; j < m; j++ {
-					snaps, already := n.VApplyT(lg[j].index, lg[j].term, lg[j].evs)
-					if !already && len(snaps) > 0 && snaps[0].Version != want {
-						out.Violate("C05:version-not-dense:after-failed-store-write", fmt.Sprintf("on replay after a failed store write entry %d received version %d, the committed log gives it %d", j, snaps[0].Version, want), desc)
-						break
-					}
-					want += uint64(len(lg[j].evs))
-				}
-				n.VCloseFSM()
-			}
-		}
-		_ = o1
-		out.Case("failwrite", true)
-		os.RemoveAll(dir)
-	}
+	failWriteScenario(out, seed, rng)
 	// ---- real raft, SIGKILL at a random wall-clock instant, restart and log replay
 	kills := 2
 	if tier == "thorough" {
@@ -464,3 +416,77 @@ type nopWriteCloser struct{}
 
 func (nopWriteCloser) Write(p []byte) (int, error) { return len(p), nil }
 func (nopWriteCloser) Close() error                { return nil }
+
+// failViolate: one finding, reported under every property it breaks (each check keeps its own prefix): the versions
+// are no longer dense (C05), the replica no longer equals the others (C06), a committed entry is not applied exactly
+// once after recovery (C07), queries are answered from a state that mixes two versions (C10).
+func failViolate(out *cq.Out, what string, desc interface{}) {
+	out.Violate("C05:version-not-dense:after-failed-store-write", what, desc)
+	out.Violate("C06:replica-diverges:after-failed-store-write", what, desc)
+	out.Violate("C07:entry-not-applied-once:after-failed-store-write", what, desc)
+	out.Violate("C10:mixed-state:after-failed-store-write", what, desc)
+}
+
+// failWriteScenario: a store write that fails (I/O error) on a running node.
+func failWriteScenario(out *cq.Out, seed uint64, rng *cq.Rng) {
+	// ---- a store write that fails (I/O error) on a running node: whether the node dies and recovers or goes on, the
+	// versions acknowledged over its whole life must be dense and the version counter must equal the accepted events
+	{
+		m := 6
+		tag := "failwrite"
+		lg := genLog(cq.NewRng(seed), tag, m)
+		k := 2 + rng.Intn(m-2)
+		dir, _ := os.MkdirTemp(out.Dir, "fw")
+		desc := map[string]interface{}{"seed": seed, "entries": m, "failing_store_write": k, "kind": "store write returns an I/O error"}
+		out.Note(desc)
+		o1, _ := runChild(out, childPlan{Dir: dir, Tag: tag, Entries: m, Seed: seed, From: 0, To: m, FailAt: k}, 0)
+		acks := readAcks(dir + "/acks.jsonl")
+		accepted := uint64(0)
+		dense := true
+		for _, a := range acks {
+			if a.Version != accepted {
+				dense = false
+				failViolate(out, fmt.Sprintf("store write %d failed with an I/O error; afterwards the node acknowledged version %d for its accepted event number %d (a version was skipped or repeated)", k, a.Version, accepted), desc)
+				break
+			}
+			accepted++
+		}
+		if dense {
+			// the node either died at the failed write (then it restarts and replays) or went on: in both cases the
+			// version counter it reports must be the number of events it holds
+			var n *consensus.RaftNode
+			if p, msg := cq.Catch(func() { n = openFSM(dir + "/db") }); p {
+				out.Violate("C07:restart-panic", "restart after a failed store write panicked: "+msg, desc)
+			} else {
+				if v := n.VBalloonVersion(); v != accepted {
+					failViolate(out, fmt.Sprintf("after a failed store write the node holds %d acknowledged events and reports version counter %d", accepted, v), desc)
+				}
+				// replay of the whole log: everything not yet applied is applied once, with the versions of the committed log
+				want := uint64(0)
+				for j := 0; j < m; j++ {
+					snaps, already := n.VApplyT(lg[j].index, lg[j].term, lg[j].evs)
+					if !already && len(snaps) > 0 && snaps[0].Version != want {
+						failViolate(out, fmt.Sprintf("on replay after a failed store write entry %d received version %d, the committed log gives it %d", j, snaps[0].Version, want), desc)
+						break
+					}
+					want += uint64(len(lg[j].evs))
+				}
+				n.VCloseFSM()
+			}
+		}
+		_ = o1
+		out.Case("failwrite", true)
+		os.RemoveAll(dir)
+	}
+}
+
+func failwriteCmd(out *cq.Out, seed uint64, tier string) {
+	rng := cq.NewRng(seed)
+	n := 1
+	if tier == "thorough" {
+		n = 4
+	}
+	for i := 0; i < n; i++ {
+		failWriteScenario(out, seed+uint64(i), rng)
+	}
+}
